@@ -22,7 +22,7 @@ func c01Programs(thorough bool) []diffrun.Program {
 			ps = append(ps, ctl.ProgramsMask(2, 400, mask)...)
 		}
 		ps = append(ps, ctl.Programs(3, 600)...)
-		for _, mask := range []int{1, 2, 4, 8} {
+		for _, mask := range []int{1, 4} {
 			ps = append(ps, ctl.ProgramsMask(3, 600, mask)...)
 		}
 	}
